@@ -168,7 +168,8 @@ def rule_own(env, shared):
                             if bb in db.reachable(bi):
                                 continue  # after the split
                             fs = [tuple(m.canon(x) if isinstance(x, tuple) else x for x in f) for f in block_facts(ev, dctx, bb)]
-                            if not CProver(fs, ev, dctx).lt(Lc, ldc):
+                            # (nothing is left when counter >= LEN: `<` instead of `<=` in the guard is equivalent)
+                            if not CProver(fs, ev, dctx).le(Lc, ldc):
                                 bad = True
                     if bad:
                         out.append(Ob("OWN.c", k, "viol", db.file_line(t["loc"]),
@@ -177,7 +178,7 @@ def rule_own(env, shared):
                     else:
                         out.append(Ob("OWN.c", k, "ok", db.file_line(t["loc"]),
                                       "Drop splits at the position counter (one read, no arithmetic, %s) and drops the remainder"
-                                      % ("clamped" if clamped else "guarded by counter <= LEN; skipped only when counter > LEN"),
+                                      % ("clamped" if clamped else "guarded by counter <= LEN; skipped only when counter >= LEN"),
                                       True))
                 # the remainder split uses its parameter as split point without arithmetic
                 k2 = "OWN.c|%s|remainder-split" % nm
